@@ -66,7 +66,7 @@ def main(argv=None):
     if a.only:
         pre = tuple(a.only.split(','))
         units = [u for u in units if u.name.startswith(pre)]
-    S = core.explore(units, seed, a.workers, cap_s, t0)
+    S = core.explore(units, seed, a.workers, cap_s, t0, a.tier)
     if a.only:
         S.exhaustive = False
         S.capped = f'--only {a.only}'
@@ -132,6 +132,13 @@ def replay(pid, path):
     if u.reset:
         u.reset()
     case = body['case']
+    # a recorded case may be one that does not return: a C-level timer (no interpreter lock needed) ends the replay
+    import faulthandler
+    limit = float(os.environ.get('VERIF_HANG_WALL', 0) or 1200)
+    print(f'replay of {path}: unit={u.name} case={json.dumps(case)[:400]}')
+    print(f'  (if the case has not returned after {limit:.0f} s the replay ends with a traceback and exit status 1: '
+          f'VIOLATION property={pid} replay={path} sig={u.name}:hang)' if str(body.get('sig', '')).endswith(':hang') else '', flush=True)
+    faulthandler.dump_traceback_later(limit, exit=True)
     try:
         if u.kind == 'scope':
             # find the live case object equal to the recorded one (tuples vs lists after JSON)
@@ -151,7 +158,7 @@ def replay(pid, path):
             u.check(st, init, hist, R)
     except Exception as e:   # noqa
         R.violation(f'{u.name}:exception:{type(e).__name__}', traceback.format_exc(limit=8))
-    print(f'replay of {path}: unit={u.name} case={json.dumps(case)[:400]}')
+    faulthandler.cancel_dump_traceback_later()
     if R.violations:
         for v in R.violations:
             print(f"  sig={v['sig']}\n     {v['msg']}")
